@@ -97,12 +97,43 @@ def late_finalize():
     return out
 
 
+def sparse_large():
+    """A thin layer of larger configurations on top of the dense quick box (long periods with few
+    units, more steps than the dense box reaches), so that defects needing a longer block or a
+    deeper recursion have somewhere to show."""
+    out = []
+    for p in (7, 9, 12, 16):
+        for b in (0, 1, 2, 3):
+            for st in (0, 1):
+                for t in (0, 1):
+                    for N in (p, p + 2, 2 * p + 1):
+                        out.append(mkcfg("TwoLevel", N=N, passes=2, period=p, ram=b, st=st, traj=t))
+    for n in (17, 23, 31):
+        for s in (1, 2, 3, 5):
+            for (r, d) in {(0, s), (s, 0), (1, s - 1)}:
+                if r >= 0 and d >= 0:
+                    for t in (0, 1):
+                        out.append(mkcfg("Multistage", max_n=n, ram=r, disk=d, traj=t))
+    for n in (20, 27):
+        for s in (1, 2, 3, 5, 8):
+            for st in (0, 1):
+                out.append(mkcfg("Mixed", max_n=n, ram=s, st=st))
+    for n in (15, 19):
+        for cm in (1, 2, 3):
+            for c in (COSTS8[0], COSTS8[2], COSTS8[6], FRAC[0]):
+                for cls in ("Revolve", "DiskRevolve", "PeriodicDiskRevolve"):
+                    out.append(mkcfg(cls, max_n=n, ram=cm, **cv(c)))
+                for cd in (1, 2):
+                    out.append(mkcfg("HRevolve", max_n=n, ram=cm, disk=cd, **cv(c)))
+    return out
+
+
 def ebox(tier, seed=0):
     """The trace box shared by the executor properties (C01-C04, C08, C09a, C11, C12, C18a)."""
     if tier == "quick":
         out = (multistage(12) + mixed(16) + revolve_family(12, (1, 2, 3, 4), COSTS8)
                + revolve_family(9, (1, 2, 3), FRAC, cds=(0, 1, 2))
-               + twolevel(12, 5, 3) + basic(12) + late_finalize())
+               + twolevel(12, 5, 3) + basic(12) + late_finalize() + sparse_large())
     else:
         rnd = random.Random(seed)
         out = (multistage(26) + mixed(40)
